@@ -213,6 +213,12 @@ func runC18(res *lib.Result, tier string, seed int64, args []string) error {
 			sort.Strings(t.files)
 			mods = append(mods, "zpk", "zpd.net")
 		}
+		if wi%4 == 1 {
+			// the canonical replay of finding K3: a native module next to a Lua module of the same name
+			t.files = append(t.files, "zso.so", "zso.lua")
+			sort.Strings(t.files)
+			mods = append(mods, "zso")
+		}
 		// dofile("<path>.lua") references (resolved by exact path first, then by suffix match)
 		for k := r.Intn(3); k > 0; k-- {
 			f := t.files[r.Intn(len(t.files))]
@@ -411,6 +417,9 @@ func runC18(res *lib.Result, tier string, seed int64, args []string) error {
 			}
 			if o.defStr != "" && !inList(S, o.defStr) {
 				sp = append(sp, fmt.Sprintf("go-to-definition on the string leads to %q, the documented mapping allows %v", o.defStr, S))
+			}
+			if so && o.defStr != "" && o.defStr != o.defWho {
+				sp = append(sp, fmt.Sprintf("go-to-definition on the string leads to %q, the analysis loaded %q (a native module of that name exists)", o.defStr, o.defWho))
 			}
 			if len(sp) > 0 {
 				switch {
